@@ -58,6 +58,7 @@ enum Cmd {
     Uf(Upd),
     Gf(String, String),          // field hex (as given), field
     Gfp(String, String, String), // pname, field hex (as given), field
+    Cu(String, Upd),             // the flow compiles the program text itself (lang::compile with overrides); scope kept as <pname>_c
 }
 
 struct AlgCfg {
@@ -101,6 +102,7 @@ fn parse_cmd(s: &str) -> Option<Cmd> {
         ["uf", u] => Some(Cmd::Uf(if u == "-" { vec![] } else { parse_upd(u)? })),
         ["gf", f] => Some(Cmd::Gf(f.to_string(), xstr(f)?)),
         ["gfp", n, f] if is_pname(n) => Some(Cmd::Gfp(n.to_string(), f.to_string(), xstr(f)?)),
+        ["cu", n, u] if is_pname(n) => Some(Cmd::Cu(n.to_string(), if u == "-" { vec![] } else { parse_upd(u)? })),
         _ => None,
     }
 }
@@ -510,6 +512,26 @@ impl Fl {
                 },
                 Cmd::Gf(h, f) => format!("GF {} {}", h, gf_res(rep, self.cur.as_ref(), f)),
                 Cmd::Gfp(p, h, f) => format!("GFP {} {} {}", p, h, gf_res(rep, self.scopes.get(p), f)),
+                Cmd::Cu(p, upd) => {
+                    // (the program text as registered by this flow's own algorithm)
+                    let src = cfg.progs.iter().rev().find(|(n, _)| *n == p.as_str()).map(|(_, s)| s.clone());
+                    let r = src.and_then(|src| {
+                        catch_unwind(std::panic::AssertUnwindSafe(|| portus::lang::compile(src.as_bytes(), &as_refs(upd)))).ok().and_then(|r| r.ok())
+                    });
+                    match r {
+                        Some((_, sc)) => {
+                            let key = format!("{}_c", p);
+                            {
+                                let mut st = lk(&self.sh);
+                                st.uid2p.insert(sc.program_uid, key.clone());
+                                st.p2uid.insert(key.clone(), sc.program_uid);
+                            }
+                            self.scopes.insert(key, sc);
+                            format!("CU {} OK", p)
+                        }
+                        None => format!("CU {} ERR", p),
+                    }
+                }
             };
             say(&self.sh, line);
         }
